@@ -3,6 +3,7 @@ package main
 import (
 	"fmt"
 
+	"github.com/0chain/common/core/currency"
 	"verif/lib/chainsim"
 	"verif/lib/world"
 )
@@ -53,15 +54,15 @@ func sspReq(w *world.World, provider string) map[string]any {
 }
 
 func sLock(w *world.World, who, provider string, v uint64) chainsim.Action {
-	a := call(w, who, "storagesc", "stake_pool_lock", sspReq(w, provider), 0, 0, fmt.Sprintf("->%s:%d", provider, v))
-	inner := a.Build
-	a.Build = func(x *chainsim.Ctx) *world.TxnSpec {
-		s := inner(x)
-		s.Value = 0
-		s.Value += 0
-		return s
-	}
-	return a
+	return call(w, who, "storagesc", "stake_pool_lock", sspReq(w, provider), currency.Coin(v), 0, fmt.Sprintf("->%s:%d", provider, v))
+}
+
+func sUnlock(w *world.World, who, provider string) chainsim.Action {
+	return call(w, who, "storagesc", "stake_pool_unlock", sspReq(w, provider), 0, 0, "->"+provider)
+}
+
+func sCollect(w *world.World, who, provider string) chainsim.Action {
+	return call(w, who, "storagesc", "collect_reward", sspReq(w, provider), 0, 0, "->"+provider)
 }
 
 func sCall(w *world.World, who, fn, provider string) chainsim.Action {
